@@ -271,10 +271,20 @@ class KillWalker:
                 init = self.eng.prog.method("_Clusters", "__init__")
             except Exception:
                 return False
+            # the constructor parameter that self.n_clusters is set from (and that is not rebound) counts as well
+            counts = {"range(self.n_clusters)"}
+            for n in ast.walk(init.node):
+                if isinstance(n, (ast.Assign, ast.AnnAssign)) and isinstance(getattr(n, "value", None), ast.Name) and \
+                        n.value.id in init.params:
+                    tg = n.targets[0] if isinstance(n, ast.Assign) else n.target
+                    if ast.unparse(tg) == "self.n_clusters" and not any(
+                            isinstance(x, ast.Name) and x.id == n.value.id and isinstance(x.ctx, ast.Store)
+                            for x in ast.walk(init.node)):
+                        counts.add("range(%s)" % n.value.id)
             for n in ast.walk(init.node):
                 if isinstance(n, ast.Assign) and ast.unparse(n.targets[0]) == "self.lp_list" and \
                         isinstance(n.value, ast.ListComp) and \
-                        ast.unparse(n.value.generators[0].iter) == "range(self.n_clusters)":
+                        ast.unparse(n.value.generators[0].iter) in counts:
                     return True
             # the list is built by a loop: empty, then exactly one append per turn of `for _ in range(n_clusters)`
             from .common import _count_writes
